@@ -14,7 +14,7 @@ from ..model_ac import ModelAC
 ID = "C09"
 LEVEL = "exploration"
 SHARDS = {"quick": 8, "thorough": 16}
-RULE = ("a hostile packet recipe (templates: V2 response, V3 handshake reply, V3 encrypted response, V3 error packet, raw bytes; "
+RULE = ("(also: refreshes consisting of several queries with the hostile answer to one of them followed by silence; the first call abandoned by its caller at each protocol phase and followed by calls nobody cancels) a hostile packet recipe (templates: V2 response, V3 handshake reply, V3 encrypted response, V3 error packet, raw bytes; "
         "operators: header fields set to boundary values, ciphertext length not a multiple of 16, valid signature/tag recomputed "
         "over random or truncated ciphertext, bad PKCS#7 under a valid signature, empty payload, every type nibble, wrong key, "
         "clear data, splice/concatenate, bursts of 1100/2600 identical small packets in one delivery for every type nibble, arbitrary segmentation) is sent by the model device at a protocol phase (V2 send; V3 "
@@ -57,9 +57,14 @@ def check_case(case: dict):
                 conn.send_stream(data, delay=case.get("delay", dev_.latency), cuts=cuts)
                 if case.get("then_close") is not None:
                     conn.close(delay=case.get("delay", dev_.latency) + case["then_close"], reset=bool(case.get("reset")))
+                if case.get("silent_after"):
+                    quiet["on"] = True       # ... and from then on the peer says nothing at all
+                return ("drop",)
+            if quiet["on"]:
                 return ("drop",)
             return None
 
+        quiet = {"on": False}
         dev.on_data = on_data
 
         def arm_handshake():
@@ -101,6 +106,8 @@ def check_case(case: dict):
         else:
             obj = AC(ip="10.0.0.9", port=6444, device_id=9)
             lan = obj._lan
+            if case.get("multi"):
+                obj.enable_energy_usage_requests = True      # configuration: a refresh consists of several queries
 
         # spy on frames produced by the transport (instance attribute, harness side)
         orig_send = lan.send
@@ -149,13 +156,28 @@ def check_case(case: dict):
                     dev.on_data = None
                     armed["on"] = False
                     out.pop("exc", None)
+                if attempt:
+                    quiet["on"] = False
                 try:
-                    if api == "lan":
-                        out["result"] = await obj.send(FRAME)
-                    elif api == "device":
-                        out["result"] = await obj._send_command(GetStateCommand())
+                    async def call():
+                        if api == "lan":
+                            return await obj.send(FRAME)
+                        if api == "device":
+                            return await obj._send_command(GetStateCommand())
+                        return await obj.refresh()
+                    if attempt == 0 and case.get("cancel_at") is not None and case.get("again"):
+                        # the caller gives up on the first call after `cancel_at` s (its own timeout); the calls that follow are not
+                        # cancelled by anybody and must end within the contract
+                        task = asyncio.ensure_future(call())
+                        await asyncio.sleep(case["cancel_at"])
+                        if not task.done():
+                            task.cancel()
+                        try:
+                            out["result"] = await task
+                        except asyncio.CancelledError:
+                            out["result"] = []
                     else:
-                        out["result"] = await obj.refresh()
+                        out["result"] = await call()
                 except (ProtocolError, TimeoutError) as e:
                     out["exc"] = e
                     if api != "lan":
@@ -234,7 +256,7 @@ def _nontrivial(case) -> bool:
 
 def _run_one(ctx, case):
     import json
-    key = hash((json.dumps(case["hostile"], sort_keys=True), case["version"], case["phase"], case["api"], tuple(case.get("cuts", [])), case.get("delay"), case.get("tick"), case.get("debug"), case.get("then_close"), case.get("reset"), case.get("silent"), case.get("again"), case.get("after_hs")))
+    key = hash((json.dumps(case["hostile"], sort_keys=True), case["version"], case["phase"], case["api"], tuple(case.get("cuts", [])), case.get("delay"), case.get("tick"), case.get("debug"), case.get("then_close"), case.get("reset"), case.get("silent"), case.get("again"), case.get("after_hs"), case.get("multi"), case.get("silent_after"), case.get("cancel_at")))
     nt = _nontrivial(case)
     cls = f"v{case['version']}/{case['phase']}/{case['api']}"
     ctx.case(key, nt, cls=cls)
@@ -381,6 +403,22 @@ def _catalogue():
                               "hostile": {"t": "rep", "n": n, "item": {"t": "raw", "data": "5a5a01110600"}, "tail": {"t": "v2"}}})
                 cases.append({"version": 2, "phase": phase, "api": api, "cuts": [], "burst": True,
                               "hostile": {"t": "rep", "n": n, "item": {"t": "v2", "sign": "bad"}, "tail": {"t": "v2"}}})
+    # a refresh that consists of several queries (energy polling on): one query gets the hostile answer, then the peer says nothing
+    # more (or goes on normally)
+    for version in (2, 3):
+        for r in (v2[:4] + [v2[6], v2[-1]] if version == 2 else [v3[0], v3[7], v3[33], v3[40], v3[-3], v3[-2]]):
+            for silent_after in (True, False):
+                for again in (0, 1):
+                    cases.append({"version": version, "phase": "send", "api": "ac", "cuts": [], "hostile": r, "multi": True, "silent_after": silent_after, "again": again})
+    # the caller gives up on the first call (at each protocol phase: before the answer, in the settle pause after a handshake, while
+    # waiting for a retransmission); the calls after it are nobody's to cancel
+    benign = {"t": "raw", "data": ""}
+    for version in (2, 3):
+        for phase in (("send", "idle") if version == 2 else ("send", "reauth", "idle")):
+            for cancel_at in (0.02, 0.5, 1.02, 1.2, 2.5):
+                for api in ("lan", "device", "ac"):
+                    for r in (benign, (v2[0] if version == 2 else v3[0])):
+                        cases.append({"version": version, "phase": phase, "api": api, "cuts": [], "hostile": r, "cancel_at": cancel_at, "again": 2})
     return cases
 
 
@@ -397,7 +435,8 @@ def run(ctx) -> None:
             "version": st.just(version), "phase": st.sampled_from(phases), "api": st.sampled_from(["lan", "lan", "device", "ac"]),
             "hostile": hostile.recipes(version), "cuts": gens.cut_sets(200, 4)},
             optional={"delay": st.sampled_from([0.05, 1.0, 1.9985, 1.999, 1.9995, 2.0, 2.0005, 3.999, 5.9995]), "tick": st.sampled_from([0.0, 0.001]),
-                      "debug": st.sampled_from([False, False, False, True]), "silent": st.booleans(), "again": st.sampled_from([0, 0, 1, 2]), "after_hs": st.sampled_from([0.0, 0.3, 0.99]), "then_close": st.sampled_from([0.0, 0.3, 1.9, 2.5]), "reset": st.booleans()}).map(
+                      "debug": st.sampled_from([False, False, False, True]), "silent": st.booleans(), "again": st.sampled_from([0, 0, 1, 2]), "after_hs": st.sampled_from([0.0, 0.3, 0.99]), "then_close": st.sampled_from([0.0, 0.3, 1.9, 2.5]), "reset": st.booleans(),
+                      "multi": st.booleans(), "silent_after": st.booleans(), "cancel_at": st.sampled_from([0.02, 0.5, 1.2, 2.5])}).map(
                 lambda c: dict(c, api="lan") if (c["api"] == "ac" and c["phase"] == "auth") else c)
 
     ctx.hyp("v3", cases(3), lambda c: _run_one(ctx, c), ctx.n(6000, 400000))
